@@ -123,6 +123,10 @@ def main(pid):
     # under step lists that have `html` first, last or in the middle
     import chk_markup
     items += [{"text": d, "tok": "aho", "ra": True} for d in plain[:: (3 if thorough else 8)]]
+    import datetime
+    amb = gendocs.ambiguous_docs(vlib.impl_run("drv_extract", "db_strings", {}), datetime.date.today().year)
+    items += [{"text": d, "tok": "aho", "ra": ra} for d in amb for ra in (True, False)]
+    ev.cov["ambiguous_reporter_documents"] = len(amb)
     for i, m in enumerate(chk_markup.documents(rnd, 1200 if thorough else 300)):
         items.append({"markup": m, "steps": chk_markup.STEPS[i % len(chk_markup.STEPS)], "tok": "aho", "ra": i % 5 == 0})
     hs_dir = vlib.WORK / f"hs-{os.getpid()}-{time.time_ns()}"
